@@ -123,6 +123,56 @@ theorem C12_sensitivity_global_pointer_interferes :
      ((exec c W [1, 0, 0, 0] (Run.start World.init)).w.priv 0).out ≠ ((solo c 0 (W 0) World.init).priv 0).out) := by
   refine ⟨by decide, by decide⟩
 
+/-! ### The Stack constructor under allocation faults -/
+
+/-- The order of the constructor's steps in the working tree (regenerated from Stack.h on every run) is the order the
+    model calls `codeOrder`: allocate (`initialize`), `new_recording`, and only then `activate`. -/
+theorem C12_ctor_order_generated : Ctor.generatedOrder = some Ctor.codeOrder := by decide
+
+/-- FAILED CONSTRUCTION LEAVES THE THREAD'S POINTER ALONE.  For the code's order, whatever the thread's pointer `cur` was,
+    whatever stack number is being constructed, activating or not, and WHATEVER step faults (`faultAt` ranges over all
+    naturals: any of the three steps, or none): if the constructor exits by an exception (injected fault, or
+    stack_already_active from `activate`) the thread's active pointer is exactly what it was before.  In particular a thread
+    that owned no active stack still has `active_stack() == 0` after `new Stack` threw std::bad_alloc. -/
+theorem C12_failed_ctor_pointer_unchanged (sid cur faultAt : Nat) (act : Bool) :
+    let r := Ctor.construct Ctor.codeOrder sid act faultAt cur
+    r.failed = true → r.ptr = cur := by
+  simp only [Ctor.construct, Ctor.codeOrder, Ctor.crun]
+  rcases Nat.lt_or_ge faultAt 3 with h | h
+  · have : faultAt = 0 ∨ faultAt = 1 ∨ faultAt = 2 := by omega
+    rcases this with rfl | rfl | rfl <;> cases act <;> simp [Ctor.cstep]
+  · have h0 : (0 == faultAt) = false := by simp; omega
+    have h1 : (0 + 1 == faultAt) = false := by simp; omega
+    have h2 : (0 + 1 + 1 == faultAt) = false := by simp; omega
+    simp only [h0, h1, h2]
+    cases act <;> simp [Ctor.cstep]
+    intro h; split at h <;> simp_all
+
+/-- non-vacuity: the fault in each of the three steps does make the construction fail (and the pointer stays 0) -/
+example : (Ctor.construct Ctor.codeOrder 1 true 0 0) = ⟨0, true⟩ ∧ (Ctor.construct Ctor.codeOrder 1 true 1 0) = ⟨0, true⟩ ∧
+    (Ctor.construct Ctor.codeOrder 1 true 2 0) = ⟨0, true⟩ ∧ (Ctor.construct Ctor.codeOrder 2 true 9 1) = ⟨1, true⟩ := by decide
+
+/-- ... and the thread can go on: after a failed construction in a thread without an active stack, the next constructor
+    (any stack number, no fault) succeeds and its object is the thread's active stack. -/
+theorem C12_stack_constructible_after_failed_ctor (sid sid' faultAt : Nat) (act : Bool) :
+    let r := Ctor.construct Ctor.codeOrder sid act faultAt 0
+    r.failed = true →
+    Ctor.construct Ctor.codeOrder sid' true 3 r.ptr = ⟨sid', false⟩ := by
+  intro r hf
+  have h := C12_failed_ctor_pointer_unchanged sid 0 faultAt act hf
+  show Ctor.construct Ctor.codeOrder sid' true 3 r.ptr = ⟨sid', false⟩
+  rw [h]
+  simp [Ctor.construct, Ctor.codeOrder, Ctor.crun, Ctor.cstep]
+
+example : (Ctor.construct Ctor.codeOrder 1 true 0 0).failed = true := by decide
+
+/-- REFUTATION of the swapped order (activate before allocating): a thread without an active stack constructs stack 0
+    (pointer value 1) and the allocation step faults: the constructor has failed — the object does not exist — yet the thread's
+    pointer designates it; the thread's next constructor then fails with stack_already_active although no fault is injected. -/
+theorem C12_swapped_ctor_order_dangles :
+    Ctor.construct Ctor.swappedOrder 1 true 1 0 = ⟨1, true⟩ ∧
+    (Ctor.construct Ctor.swappedOrder 2 true 3 (Ctor.construct Ctor.swappedOrder 1 true 1 0).ptr).failed = true := by decide
+
 /-! ### Non-vacuity: a concrete three-thread workload of C12 kinds (two threads with stacks, scalars and arrays, one
 stack-less sampler), a concrete schedule, and what the theorems say about it. -/
 
